@@ -123,7 +123,7 @@ def tlc(module, cfg=None, wd=None, workers=None, env=None, simulate=None, depth=
     log("TLC %s: %.1fs rc=%d" % (os.path.basename(mpath), time.time() - t, p.returncode))
     # TLC exit codes: 0 ok, 10 assumption, 11 deadlock, 12 safety violation, 13 liveness violation; the rest are errors
     if p.returncode not in (0, 11, 12, 13):
-        i = out.find("Semantic errors")
+        i = max(out.find("Semantic errors"), out.find("***Parse Error***"))
         log(out[i:i + 1500] if i >= 0 else out[-1500:])
         raise ToolError("TLC failed on %s (exit %d)" % (module, p.returncode))
     return out
